@@ -33,7 +33,7 @@ type c02Case struct {
 func c02Grid(thorough bool) []c02Cfg {
 	tabs, strs, pres := []uint32{4096, 40, 0}, []int{0, 1, 5}, []int{2, 0}
 	if thorough {
-		tabs, strs, pres = []uint32{4096, 40, 0, 70}, []int{0, 1, 2, 5}, []int{2, 0, 1}
+		tabs, strs = []uint32{4096, 40, 0, 70}, []int{0, 1, 2, 5}
 	}
 	var out []c02Cfg
 	for _, ms := range strs {
@@ -110,11 +110,10 @@ func TestVerif_C02(t *testing.T) {
 		quick := c.Quick()
 		grid := c02Grid(!quick)
 		small := []c02Cfg{{4096, 2, 0}, {40, 2, 1}, {4096, 1, 2}, {0, 0, 5}}
-		c.Rule(fmt.Sprintf("inputs: (a) every byte string of length <=2 and every 3-byte string over a %d-byte boundary alphabet (thorough: additionally ALL 3-byte strings under 2 configurations, unsplit); (b) every sequence of 1..3 fragments of the representation-fragment alphabet (%d fragments; thorough: %d, plus all 4-sequences of the first 10), each also with its last fragment cut at every byte; every byte string of length 4 over a 12-byte representation-aware alphabet (thorough: also length 5 under 4 configurations); (c) integers with 1..11 continuation octets in every integer position (index, name index, table size, string lengths) in 4 fill patterns x 4 terminations x {nothing, one field} following. "+
-			"each input under every configuration of max string length {0,1,5} x table size {4096,40,0} x preloaded entries {2,0} (thorough: {0,1,2,5} x {4096,40,0,70} x {2,0,1}; here %d), as one block and as two blocks (Close in between) split at every interior position. non-trivial = input for which, in some configuration, the reference decoded at least one complete representation and the run was compared",
+		c.Rule(fmt.Sprintf("inputs: (a) every byte string of length <=2 and every 3-byte string over a %d-byte boundary alphabet (thorough: additionally ALL 3-byte strings under the configuration table=4096 preload=2 maxstr=0, unsplit); (b) every sequence of 1..3 fragments of the representation-fragment alphabet (%d fragments; thorough: %d, plus all 4-sequences of the first 10), each also with its last fragment cut at every byte; every byte string of length 4 over a 12-byte representation-aware alphabet (thorough: also length 5 under 4 configurations incl. one with a single preloaded entry); (c) integers with 1..11 continuation octets in every integer position (index, name index, table size, string lengths) in 4 fill patterns x 4 terminations x {nothing, one field} following. "+
+			"each input under every configuration of max string length {0,1,5} x table size {4096,40,0} x preloaded entries {2,0} (thorough: {0,1,2,5} x {4096,40,0,70} x {2,0}; here %d), as one block and as two blocks (Close in between) split at every interior position. non-trivial = input for which, in some configuration, the reference decoded at least one complete representation and the run was compared",
 			len(c02ByteAlphabet(quick)), len(c02Fragments(false)), len(c02Fragments(true)), len(grid)))
 		c.Assume("a table size update that follows a field representation in the same block is outside the compared domain: RFC 7541 §4.2 says where an encoder must put it but not what a decoder does otherwise (the implementation accepts it iff its table is empty); fields emitted before it are still compared")
-		c.Assume("a second consecutive table size update at the start of a block is outside the compared domain (the reference follows RFC 7541 §4.2 and would accept it; the implementation's verdict there is the subject of C01); fields emitted before it are still compared")
 		c.Assume("the decoder is not used again after its first error; limit errors accepted for a well-formed block: ErrStringLength when some string of that block (wire length, decoded length, or a referenced table entry's name/value) exceeds the configured maximum, varint overflow when an integer uses more than 9 continuation octets (RFC 7541 §5.1 permits implementation limits)")
 		c.Assume("Write-level splits inside a block are C03's subject; here every block is one Write")
 
@@ -269,7 +268,7 @@ func TestVerif_C02(t *testing.T) {
 			}, mkCheck(small, true))
 			vx.Enumerate(c, "all-3-bytes", vx.Opts{NoSample: true}, func(yield func(c02Case) bool) {
 				vx.Strings(all, 3, 3, func(b []byte) bool { return yield(c02Case{"bytes", c02Hex(b)}) })
-			}, mkCheck(small[:2], false))
+			}, mkCheck(small[:1], false))
 		}
 	})
 }
